@@ -159,6 +159,16 @@ def run(ck: Checker):
         between = reachable(rcfg, [gets[0].id]) & reachable(rcfg, [handle[0].id], forward=False)
         tests = [rcfg.nodes[k] for k in between if rcfg.nodes[k].kind == 'test' and not rcfg.nodes[k].extra.get('loop')]
         other = [t for t in tests if not (isinstance(t.ast, ast.Compare) and ((isinstance(t.ast.ops[0], ast.Is) and is_none(t.ast.comparators[0])) or 'levelno' in norm_text(t.ast)))]
+        # a marker the parent itself enqueues (module-level constant put on the log queue by a method of the class) is
+        # not a record of the child: skipping it filters nothing
+        cmod_ = rl.module
+        own_markers = set()
+        for n_ in cmod_.tree.body:
+            if isinstance(n_, ast.Assign) and isinstance(n_.value, ast.Constant) and isinstance(n_.value.value, str) and isinstance(n_.targets[0], ast.Name):
+                nm_ = n_.targets[0].id
+                if any(isinstance(c_, ast.Call) and method_of(c_)[1] == 'put' and c_.args and is_name(c_.args[0], nm_) for m_ in cls.methods() for c_ in ast.walk(m_.node)):
+                    own_markers.add(nm_)
+        other = [t for t in other if not (isinstance(t.ast, ast.Compare) and len(t.ast.ops) == 1 and isinstance(t.ast.ops[0], (ast.Eq, ast.Is)) and isinstance(t.ast.comparators[0], ast.Name) and t.ast.comparators[0].id in own_markers)]
         if other:
             probs.append(f'records are also filtered by `{norm_text(other[0].ast)}`')
         lev = [t for t in tests if 'levelno' in norm_text(t.ast)]
@@ -208,3 +218,24 @@ def run(ck: Checker):
     sup = [n for n in walk_shallow_func(pinit.node) if isinstance(n, ast.Call) and method_of(n)[1] == '__init__' and any(k.arg == 'mp_context' and is_name(k.value, 'mp_context') for k in n.keywords)]
     ok = len(dfl) == 1 and is_name(dfl[0].value, 'MP_SPAWN_CTX') and bool(sup)
     ck.ob('C20-4', pinit, dfl[0] if dfl else pinit.node, ok, 'the process pool defaults to MP_SPAWN_CTX and hands the context on' if ok else 'the process pool does not default to MP_SPAWN_CTX (or does not pass the context on): its workers are standard processes whose log records are lost')
+    # ------------------------------------------------------------------ C20-5
+    ck.rule('C20-5', 'nothing the helper threads need at the end has to be created at the end: since Python 3.12 no thread can be started during interpreter shutdown, which is when the end marker is due for a child that outlives the main thread — helper threads are started in start() only, and a multiprocessing queue a helper thread puts to (its first put starts the queue\'s feeder thread) has already been put to in start() (WHO+PRECEDE)')
+    st = cls.method('start')
+    helpers = []
+    for m_ in cls.methods():
+        for sp in spawn_sites(m_):
+            if sp.kind == 'thread' and sp.target is not None and sp.target not in helpers:
+                helpers.append(sp.target)
+    probs = []
+    for h in helpers:
+        late = [sp for sp in spawn_sites(h) if sp.kind == 'thread']
+        if late:
+            probs.append(f'{h.qualname} L{late[0].call.lineno}: a thread is started from inside a helper thread (when the child\'s result arrives / the child ends): for a child that outlives the main thread this happens during interpreter shutdown and fails with RuntimeError — the logger thread never gets its end marker and the parent process never exits')
+    start_puts = {dotted(method_of(c_)[0]) for c_ in ast.walk(st.node) if isinstance(c_, ast.Call) and method_of(c_)[1] == 'put' and method_of(c_)[0] is not None}
+    for h in helpers:
+        for c_ in ast.walk(h.node):
+            if isinstance(c_, ast.Call) and method_of(c_)[1] == 'put' and method_of(c_)[0] is not None:
+                qd = dotted(method_of(c_)[0])
+                if qd and qd.startswith('self.') and 'queue' in qd.lower() and qd not in start_puts:
+                    probs.append(f'{h.qualname} L{c_.lineno}: `{norm_text(c_)}` is the parent\'s first put on that multiprocessing queue (start() makes none): it has to start the queue\'s feeder thread, which fails during interpreter shutdown — a child that outlives the main thread leaves the logger thread without its end marker, the parent never exits')
+    ck.ob('C20-5', st, (st.node.lineno, 'late creations'), not probs, '; '.join(sorted(set(probs))) if probs else f'{len(helpers)} helper threads, all started in start(); the log queue has had its first put in start()')
